@@ -72,9 +72,39 @@ def build_harness(race=False):
     return out
 
 
+def time_wait_sockets():
+    """Number of loopback TCP sockets in TIME_WAIT (they keep ephemeral ports occupied for 60 s)."""
+    n = 0
+    try:
+        with open("/proc/net/tcp") as f:
+            for line in f:
+                parts = line.split()
+                if len(parts) > 3 and parts[3] == "06":
+                    n += 1
+    except OSError:
+        pass
+    return n
+
+
+TIME_WAIT_WAITED = [0.0]
+
+
+def settle_ports(high=16000, low=9000, patience=75):
+    """The drivers open tens of thousands of loopback connections; what the previous driver (or check) left in
+    TIME_WAIT can use up the 28 k ephemeral ports ('bind: address already in use' in a set-up step). Wait until
+    the kernel has expired them - this only delays, it decides nothing."""
+    if time_wait_sockets() <= high:
+        return
+    t0 = time.time()
+    while time_wait_sockets() > low and time.time() - t0 < patience:
+        time.sleep(1)
+    TIME_WAIT_WAITED[0] += time.time() - t0
+
+
 def run_replay(args, timeout=600, race=False, env=None, check=True):
     """Run the replay binary; returns (summary dict or None, stdout)."""
     exe = build_harness(race=race)
+    settle_ports()
     e = dict(os.environ)
     if env:
         e.update(env)
@@ -436,6 +466,8 @@ class Check:
     def finish(self):
         wall = time.time() - self.t0
         self.cov["known_findings_seen"] = sorted(self.known_seen)
+        if TIME_WAIT_WAITED[0] > 0:
+            self.cov["waited_for_time_wait_sockets_s"] = round(TIME_WAIT_WAITED[0], 1)
         ev = {"property_id": self.pid, "tier": self.tier, "seed": self.seed, "level": self.level,
               "coverage": self.cov, "assumptions": self.assumptions, "wall_s": round(wall, 2),
               "violations": len(self.violations)}
